@@ -164,3 +164,58 @@ def check_validate(chk, cases):
     if rc != 0:
         chk.fail_no_input("the extracted validator and the Coq definition disagree on a flow (extraction or driver defect): %s" % (o + e).strip()[-300:],
                           {"theorem": "extraction cross-check (validator)", "file": path, "log": (o + e)[-2000:]})
+
+
+def check_examples(chk, name, imports, examples, what):
+    """examples: list of Coq propositions (strings) to be closed by vm_compute; reflexivity"""
+    d = os.path.join(common.CACHE, "coqcases")
+    os.makedirs(d, exist_ok=True)
+    L = ["From CffVerif Require Import %s." % imports, "Import ListNotations.", ""]
+    for i, ex in enumerate(examples):
+        L.append("Example x%d : %s." % (i, ex))
+        L.append("Proof. vm_compute. reflexivity. Qed.")
+    path = os.path.join(d, "%s_%s.v" % (name, chk.pid))
+    open(path, "w").write("\n".join(L) + "\n")
+    rc, o, e = common.run("timeout 600 coqc -Q %s CffVerif %s" % (common.COQ, path), cwd=d, check=False, timeout=700)
+    chk.cov.setdefault("correspondence", {})["extraction_cross_check_" + name] = {"kind": what, "cases": len(examples), "ok": rc == 0}
+    chk.count(len(examples))
+    if rc != 0:
+        chk.fail_no_input("the extracted model and the Coq definition disagree (%s; extraction or driver defect): %s" % (name, (o + e).strip()[-300:]),
+                          {"theorem": "extraction cross-check (%s)" % name, "file": path, "log": (o + e)[-2000:]})
+
+
+def codes(s):
+    return coq_list(ord(c) for c in s)
+
+
+def alias_example(case, model_out):
+    taken, _, reqs = case.partition("|")
+    init = coq_list(codes(n.strip()) for n in taken.split(",") if n.strip())
+    rq = []
+    for r in reqs.split("|"):
+        f = r.split()
+        if len(f) == 2:
+            d, _, b = f[0].rpartition("/")
+            rq.append("((%s, %s), %s)" % (codes(d), codes(b), codes(f[1])))
+    names = model_out.split(";")[0].split()
+    return "option_map fst (requests %s (start %s)) = Some %s" % (coq_list(rq), init, coq_list(codes(n) for n in names))
+
+
+def emstack_example(prog, model_out):
+    defs = [d.strip() for d in prog.split(";")]
+    lets, names = [], []
+    for k, d in enumerate(defs):
+        args = []
+        for tok in d.split():
+            if tok == "E":
+                continue
+            if tok[0] == "L":
+                args.append("VOne (ALeaf %s)" % tok[1:])
+            elif tok[0] == "N":
+                args.append("VOne ANop")
+            else:
+                args.append("v%s" % tok[1:])
+        lets.append("let v%d := mk_stack %s in" % (k, coq_list(args)))
+        names.append("deliver v%d" % k)
+    want = coq_list(coq_list(x for x in part.split(",") if x) for part in model_out.split("|"))
+    return "(%s %s) = %s" % (" ".join(lets), coq_list(names), want)
